@@ -177,7 +177,12 @@ evaluates, at every point, to the value given by the documented table applied re
 (`(A+B)(x)=A(x)+B(x)`, `(A*B)(x)=A(B(x))`, `(a*A)(x)=a*A(x)`, `(A*a)(x)=A(a*x)`,
 `(v*A)(x)=v*A(x)`, `(A*v)(x)=A(v*x)`, `(A+v)(x)=A(x)+v`, `A**n` iterated, `(A/a)(x)=A(x/a)`),
 however the scalar factors were merged and whichever shortcut (`f*0`, `0*f`, linear
-`A*a ↦ a*A`, reflected `+`) the dispatch took. -/
+`A*a ↦ a*A` for real `a`, reflected `+`) the dispatch took.
+CONDITIONAL on the leaf hypotheses `EnvOK R env e` (flagged-linear leaves are `R`-linear,
+`Functional` leaves return scalars, scalars marked `Real` lie in `R`); one field `K` per tree.
+Division is Lean's total division (`x / 0 = 0`): at points where a `FunctionalQuotient`
+divisor vanishes the code raises / gives inf and the statement says nothing about the code;
+`A / 0` is not an expression (`build` rejects it, `typeOf` too). -/
 theorem C04.build_sound {K : Type} [Field K] [DecidableEq K] (R : K → Prop)
     (env : Nat → Vec K → Vec K) (e : Expr K) (henv : EnvOK R env e) (i : Impl K)
     (h : build env e = some i) (x : Vec K) : run env i x = den env e x :=
